@@ -11,6 +11,7 @@ package fans
 //@ ghost var lastMode gmap[int]int
 //@ ghost var lastRpmRead int
 //@ ghost var supportsResult gmap[int]bool
+//@ ghost var lastPwmErr gmap[int]bool
 
 // ---- well-formed fan objects (established by NewFan) ----------------------------------------------
 //@ pure hwWF(h *HwMonFan) bool = h != nil && h.Config.HwMon != nil && h.Config.HwMon.PwmPath != h.Config.HwMon.PwmEnablePath && (h.FanCurveData != nil ==> *h.FanCurveData != nil)
@@ -84,11 +85,14 @@ package fans
 //@   ensures pwmWrites == old(pwmWrites)[fan := old(pwmWrites)[fan] + 1] && lastPwm == old(lastPwm)[fan := pwm]
 //@   ensures err == nil && hwPwmPath(fan) in faithful ==> fileInt[hwPwmPath(fan)] == pwm
 //@   ensures forall p string :: p != hwPwmPath(fan) ==> fileInt[p] == old(fileInt)[p]
-//@   modifies pwmWrites, lastPwm, fileInt
+//@   ghostret lastPwmErr[fan] := err != nil
+//@   ensures lastPwmErr == old(lastPwmErr)[fan := (err != nil)]
+//@   modifies pwmWrites, lastPwm, fileInt, lastPwmErr
 
 //@ func (*HwMonFan).GetPwmEnabled
 //@   requires hwWF(fan)
 //@   ensures result1 == nil ==> result0 == fileInt[hwEnablePath(fan)]
+//@   ensures lastReadFailed == (result1 != nil)
 //@   modifies lastReadFailed
 
 //@ func (*HwMonFan).Supports
@@ -140,7 +144,9 @@ package fans
 //@   ghostdo pwmWrites[fan] := pwmWrites[fan] + 1
 //@   ghostdo lastPwm[fan] := pwm
 //@   ensures pwmWrites == old(pwmWrites)[fan := old(pwmWrites)[fan] + 1] && lastPwm == old(lastPwm)[fan := pwm]
-//@   modifies pwmWrites, lastPwm, fileInt
+//@   ghostret lastPwmErr[fan] := err != nil
+//@   ensures lastPwmErr == old(lastPwmErr)[fan := (err != nil)]
+//@   modifies pwmWrites, lastPwm, fileInt, lastPwmErr
 //@ func (*FileFan).Supports
 //@   ghostret supportsResult[feature] := result
 //@   ensures supportsResult == old(supportsResult)[feature := result]
@@ -194,7 +200,9 @@ package fans
 //@   ghostdo pwmWrites[fan] := pwmWrites[fan] + 1
 //@   ghostdo lastPwm[fan] := pwm
 //@   ensures pwmWrites == old(pwmWrites)[fan := old(pwmWrites)[fan] + 1] && lastPwm == old(lastPwm)[fan := pwm]
-//@   modifies pwmWrites, lastPwm, procWorld, started
+//@   ghostret lastPwmErr[fan] := err != nil
+//@   ensures lastPwmErr == old(lastPwmErr)[fan := (err != nil)]
+//@   modifies pwmWrites, lastPwm, procWorld, started, lastPwmErr
 //@   loop 1 "for _, arg := range conf.Args"
 //@     invariant -1 <= rangeindex && arrayOf(args) >= old(W)
 //@ func (*CmdFan).Supports
@@ -218,7 +226,9 @@ package fans
 
 // ---- control mode -----------------------------------------------------------------------------------
 //@ func (*HwMonFan).SetPwmEnabled
+//@   props C03
 //@   requires hwWF(fan)
+//@   ensures[C03.readback C05] err == nil ==> fileInt[hwEnablePath(fan)] == value || lastReadFailed
 //@   ghostdo modeWrites[fan] := modeWrites[fan] + 1
 //@   ghostdo lastMode[fan] := value
 //@   ensures modeWrites == old(modeWrites)[fan := old(modeWrites)[fan] + 1] && lastMode == old(lastMode)[fan := value]
